@@ -204,3 +204,25 @@ def run(ctx):
         ctx.violation(f"{m['detector']}({m['params']}) on n={m['n']}, p={m['p']}{', NaN' if m['nan'] else ''}: {m['outcome']} at {m['stage']}"
                       f"{' (' + m['message'] + ')' if m['message'] else ''}; the documented domain says it must {want}", m,
                       {"what": "outcome", "detector": m["detector"], "impl": m["outcome"], "stage": m["stage"]})
+    # ---- a COST OBJECT that served another detector on data of another width: what it remembers must not decide whether a valid configuration runs ----
+    from skchange.costs import GaussianCovCost as _GCr
+    for rep in range(ctx.n(3, 12)):
+        shared = _GCr()
+        X3 = pd.DataFrame(rng.normal(size=(40, 3)))
+        X1 = pd.DataFrame(rng.normal(size=(30, 1)))
+        X1.iloc[15:] += 4.0
+        inp = {"history": ["PELT(cost=c, min_segment_length=4).fit(40 x 3).predict", "PELT(cost=c, min_segment_length=2).fit(30 x 1).predict"], "cost": "GaussianCovCost"}
+        ctx.case({"shared_cost": rep}, nontrivial=True)
+        try:
+            with time_limit(10):
+                PELT(cost=shared, min_segment_length=4).fit(X3).predict(X3)
+                second = PELT(cost=shared, min_segment_length=2).fit(X1)
+                y2 = second.predict(X1)
+                fresh = PELT(cost=_GCr(), min_segment_length=2).fit(X1).predict(X1)
+            if y2["ilocs"].tolist() != fresh["ilocs"].tolist():
+                ctx.violation(f"PELT(min_segment_length=2) on 30 x 1 data with a GaussianCovCost object that served a 3-column detector before reports {y2['ilocs'].tolist()}, "
+                              f"with a fresh cost {fresh['ilocs'].tolist()}", inp, {"what": "shared-cost-object", "detector": "PELT"})
+        except Exception as ex:
+            ctx.violation(f"PELT(cost=c, min_segment_length=2) on 30 x 1 data raised {type(ex).__name__}: {str(ex)[:120]} -- the configuration is valid (the cost needs p + 1 = 2 rows) and "
+                          f"runs with a fresh cost object; c had served a 3-column detector before", inp, {"what": "shared-cost-object", "detector": "PELT", "cls": type(ex).__name__})
+
